@@ -33,7 +33,7 @@ MODULES = {  # property -> harness modules
 
 def _env():
     e = dict(MIN_ENV)
-    for k in ("VERIF_REPO",):
+    for k in ("VERIF_REPO", "VERIF_EVIDENCE_DIR"):
         if os.environ.get(k):
             e[k] = os.environ[k]
     return e
@@ -301,7 +301,7 @@ def _example_fixed(h, ex):
 
 
 def write_replay(prop, h, r, args, it):
-    d = os.path.join(VERIF, "evidence", "replay", prop)
+    d = os.path.join(os.environ.get("VERIF_EVIDENCE_DIR") or os.path.join(VERIF, "evidence"), "replay", prop)
     os.makedirs(d, exist_ok=True)
     blob = {"property": prop, "harness": h.name, "module": h.module, "func": h.func, "fixed": r["job"]["fixed"], "args": args,
             "what": h.what, "bounds": h.bounds, "crosshair_message": r["message"][:1500], "notes_at_detection": it.get("notes", [])}
@@ -351,8 +351,9 @@ def write_evidence(prop, tier, seed, hs, results, violations, known_hit, inconcl
         ] + ["stub: " + s for s in stubs],
         "wall_s": round(wall, 2), "violations": len(violations),
     }
-    os.makedirs(os.path.join(VERIF, "evidence"), exist_ok=True)
-    with open(os.path.join(VERIF, "evidence", prop + ".json"), "w") as f:
+    evdir = os.environ.get("VERIF_EVIDENCE_DIR") or os.path.join(VERIF, "evidence")
+    os.makedirs(evdir, exist_ok=True)
+    with open(os.path.join(evdir, prop + ".json"), "w") as f:
         json.dump(ev, f, indent=1, default=str)
 
 
